@@ -12,7 +12,8 @@ def run(ctx):
     return generic.standard(
         ctx, ["MlsVerif.Props.C07"], ["c07", "--scenarios", n], None, "c07", treechecks.SOURCES + ["mls-rs/src/group/external_commit.rs", "mls-rs/src/group/state_repo.rs"],
         rule="joiner scenarios: groups grown by 1-2 joiners per commit, tree in the extension or out of band, single or per-member Welcome; after each join: state equality with the "
-             "committer, key package deleted by the first write, Welcome not reusable, foreign client cannot use the Welcome; external commit by an outsider and a commit by it; stale "
+             "committer, key package deleted by the first write, Welcome not reusable, foreign client cannot use the Welcome, a Welcome re-addressed by a holder of its group secrets to "
+             "another key package of the joiner or to a stranger's key package (hook verif_retarget_welcome: no leaf of the addressed key package in the tree) is refused; external commit by an outsider and a commit by it; stale "
              "GroupInfo; removed member re-joining with the same client and storage; plus the random histories' joiner rows replayed on the tree model",
         what_corr="a joiner's private key slots differ from the tree-layer model",
         what_oracle="a joiner does not reach the members' state, a key package survives the first write, or a mismatched Welcome / tree / GroupInfo produced a group",
